@@ -453,12 +453,25 @@ def has_rc(node) -> bool:
     return any(a[0] == "rc" for a in atoms_of(node))
 
 
+def only_fc(node) -> bool:
+    """a format constraint key, or a U/O/X composition of nothing but format constraint keys"""
+    if is_atom(node):
+        return node[0] == "fc"
+    return node[0] in ("and", "or", "xor") and all(only_fc(child) for child in node[1])
+
+
 def then_parts(node):
-    """for a binary `then` node of the evaluation domain: (fc atom, partner)"""
+    """
+    for a binary `then` node: (format constraint part, partner).  The format constraint part is one fc key - or, on
+    the right-hand side only (C05 / C07; the stated domain of C04 and C06 is the single key), a bracketed composition
+    of format constraint keys, as a package of format constraints yields it: [1]([950] O [951])
+    """
     left, right = node[1]
     if left[0] == "fc" and right[0] != "fc":
         return left, right
     if right[0] == "fc":
+        return right, left
+    if only_fc(right) and not only_fc(left):
         return right, left
     raise ValueError(f"not a format-constraint attachment: {node}")
 
@@ -531,10 +544,11 @@ def fc_direct(node, assignment, truth):
     if node[0] == "fc":
         return truth[node[1]]
     if node[0] == "then":
-        fc_atom, partner = then_parts(node)
+        fc_part, partner = then_parts(node)
         inner = fc_direct(partner, assignment, truth)
         if partner[0] == "hint" or state(partner, assignment) == "F":
-            return truth[fc_atom[1]] if inner is None else (truth[fc_atom[1]] and inner)
+            attached = bool_eval(fc_part, truth)
+            return attached if inner is None else (attached and inner)
         return inner
     result = None
     for child in node[1]:
